@@ -58,7 +58,7 @@ PROBES = ["reader_blocked_by_writer", "writer_blocked", "three_or_more_polling",
           "session_failed_user_exc", "session_failed_encoder_exc", "session_failed_dup_at_put",
           "session_failed_io_error", "queue_nonempty_after_failed_session", "same_path_two_spellings", "two_libraries",
           "pickled_handle", "create_race", "reader_saw_maybe_record", "molecule_library_payload", "failed_put_caught_session_continues",
-          "used_handle_shipped_to_another_process", "shipped_handle_carried_a_write_queue", "session_left_by_a_base_exception"]
+          "used_handle_shipped_to_another_process", "shipped_handle_carried_a_write_queue", "session_left_by_a_base_exception", "own_record_read_back_inside_the_writing_session"]
 
 # what user code inside a session can end with: ordinary exceptions, and the ones that do not derive from Exception
 # (Ctrl-C, sys.exit() in a worker that catches it further up, a cancelled asyncio task) - the process stays alive
@@ -162,6 +162,12 @@ def gen_plan(r, tier, index):
                     sess["ops"].append({"op": "put", "k": key, "v": [tag, n]})
                 if r.random() < 0.3:
                     sess["ops"].insert(r.randrange(len(sess["ops"]) + 1), {"op": "list"})
+                if r.random() < 0.3:
+                    # read back, inside the writing session, something this session has put (with a deferring buffer the
+                    # collection has to store its queue first)
+                    puts_ = [i_ for i_, o_ in enumerate(sess["ops"]) if o_["op"] == "put"]
+                    at_ = r.choice(puts_)
+                    sess["ops"].insert(r.randrange(at_ + 1, len(sess["ops"]) + 1), {"op": "readback", "k": sess["ops"][at_]["k"]})
             else:
                 sess["ops"].append({"op": "read_all"})
                 if r.random() < 0.3:
@@ -272,7 +278,7 @@ def _mk(path, readonly, cb):
 
 class _Sess:
     __slots__ = ("pid", "idx", "lib", "kind", "hkey", "invoke", "ret", "b0", "b1", "outcome", "exc", "puts", "put_results",
-                 "reads", "listings", "fault", "queue_left", "leak", "timeout", "cb", "caught", "inherited", "queue_keys", "shipped_dirty")
+                 "reads", "listings", "fault", "queue_left", "leak", "timeout", "cb", "caught", "inherited", "queue_keys", "shipped_dirty", "readbacks")
 
     def __init__(self):
         self.invoke = self.ret = self.b0 = self.b1 = None
@@ -289,6 +295,7 @@ class _Sess:
         self.inherited = False
         self.queue_keys = ()
         self.shipped_dirty = False
+        self.readbacks = []
 
     def good_puts(self):
         """puts that returned without raising (in an ok session these are the committed ones)"""
@@ -498,6 +505,13 @@ def _run_plan(plan, trace=False):
                     raise RuntimeError("injected user exception")
                 elif o == "stall":
                     kern.sleep(op["d"])
+                elif o == "readback":
+                    ok_keys = {k_ for (k_, r_) in S.put_results if r_ == "ok"}
+                    if op["k"] in ok_keys and not S.caught:
+                        want_ = next(v_ for (k_, v_) in S.puts if k_ == op["k"])
+                        got_ = norm(c[op["k"]], payload)
+                        res.stats["probe:own_record_read_back_inside_the_writing_session"] += 1
+                        S.readbacks.append((op["k"], got_ == want_ or got_))
                 elif o == "list":
                     S.listings.append((mark("list", S), sorted(c.keys())))
                 elif o == "read_all":
@@ -757,6 +771,11 @@ def _oracles(plan, kern, sched, sessions, marks, res, limit_hit):
                     # own keys of a writer session are checked by C02
             # writer effects
             if S.kind == "w":
+                for (k_, same_) in S.readbacks:
+                    if same_ is not True and k_ not in committed and k_ not in maybe:
+                        res.violate("S-own-record-read-back-wrong", "C04|S-readback-wrong|w",
+                                    f"pid {S.pid} #{S.idx} (w) put {k_!r} and read back {_sv(same_)} inside the same session")
+                        return
                 cls = _fail_class(S)
                 # A handle that carries a write queue over from a failed session stores those items first.  That can only
                 # fail where a carried key can collide: a key somebody else may have stored (the shared keys, or one already
